@@ -365,14 +365,25 @@ func newScanRequest(raw *rawRequest) (*scanRequest, error) {
 	// TODO: limit count
 
 	// parse cursor
-	cursor, err := btoi64(body.Array[1].Text)
+	cursor, err := parseScanCursor(body.Array[1].Text)
 	if err != nil {
 		return nil, errors.New(invalidCursor)
 	}
 
 	r := &scanRequest{raw: raw}
-	r.nodeIdx, r.nodeCursor = r.parseCursor(uint64(cursor))
+	r.nodeIdx, r.nodeCursor = r.parseCursor(cursor)
 	return r, nil
+}
+
+// parseScanCursor reads the cursor as it is written by Convert: an unsigned 64 bit
+// number (a node index of 32768 or more sets the top bit). Negative numbers are
+// still accepted and wrap around, as before.
+func parseScanCursor(b []byte) (uint64, error) {
+	if cursor, err := strconv.ParseUint(string(b), 10, 64); err == nil {
+		return cursor, nil
+	}
+	cursor, err := btoi64(b)
+	return uint64(cursor), err
 }
 
 func (r *scanRequest) Convert() (nodeIdx uint16, sreq *simpleRequest) {
